@@ -25,7 +25,6 @@ package main
 import (
 	"fmt"
 	"go/token"
-	"os"
 	"strings"
 
 	"golang.org/x/tools/go/ssa"
@@ -174,9 +173,6 @@ func (e *flushEngine) analyse(fn *ssa.Function, enc ssa.Value, record bool) *flu
 			}
 			if ret, ok := x.(*ssa.Return); ok {
 				if !flushErrorReturn(ret) {
-					if os.Getenv("L29DBG") != "" && (st.dirty || st.pending) {
-						fmt.Fprintf(os.Stderr, "RET %s %s dirty=%v pending=%v\n", e.p.Name(fn), e.p.InstrPos(ret), st.dirty, st.pending)
-					}
 					if st.dirty {
 						out.mayEndDirty = true
 					}
@@ -245,11 +241,6 @@ func ruleL29(p *Prog, r *Report) {
 			}
 			sites = append(sites, site{top, c, -1})
 		})
-	}
-	if os.Getenv("L29DBG") != "" {
-		for k, v := range e.sum {
-			fmt.Fprintf(os.Stderr, "SUM %s#%d %+v\n", p.Name(k.fn), k.idx, *v)
-		}
 	}
 	n := 0
 	for _, s := range sites {
